@@ -45,6 +45,10 @@ def minSubScore : Nat := Tables.opt_min_sub_score
 def minLoopScore : Nat := Tables.opt_min_loop_score
 def maxSubStack : Int := Tables.opt_max_sub_stack
 def maxLoopStack : Int := Tables.opt_max_loop_stack
+def maxLoopCount : Nat := Tables.opt_max_loop_count   -- Optimizer::max_loop_count
+/-- `max_fold` of `apply_match`: the number of repetitions one fold erases at most (the first
+repetition stays in the track as the loop body) -/
+def maxFold : Nat := maxLoopCount - Tables.opt_loop_fold_kept
 
 /-- `Stack_Analyzer::analyze_track`; `self` is the key of the analyser in the map -/
 def analyzeTrack (song : Song) : Nat → SAMap → Int → List Event → Int → Except OErr (SAMap × Int)
@@ -263,6 +267,13 @@ def findSubroutines (song : Song) (m : SAMap) (bm : Match) (subId : Int) : Excep
         pos := pos + 1
   pure (s, mm)
 
+/-- the local `loop_length` of `apply_match` after the cap (repair of D2): a fold that would need a
+loop count above `max_loop_count` is shortened to `max_fold` whole repetitions (count
+`max_loop_count`, no break point); the remaining repetitions stay in the track -/
+def capLoopLength (length loopLength : Nat) : Nat :=
+  if loopLength / length > maxFold ∨ (loopLength / length = maxFold ∧ loopLength % length ≠ 0) then maxFold * length
+  else loopLength
+
 /-- `apply_match` -/
 def applyMatch (song : Song) (m : SAMap) (bm : Match) (subId : Int) : Except OErr (Song × SAMap × Int) := do
   let src ← match song.track? bm.trackId with | some s => pure s | none => throw OErr.missingTrack
@@ -276,10 +287,11 @@ def applyMatch (song : Song) (m : SAMap) (bm : Match) (subId : Int) : Except OEr
   else
     let position := bm.position
     let length := bm.loopPosition - bm.position
-    let repeats0 := bm.loopLength / length + 1
-    let breakPoint := bm.loopLength % length
+    let loopLength := capLoopLength length bm.loopLength
+    let repeats0 := loopLength / length + 1
+    let breakPoint := loopLength % length
     let repeats := if breakPoint ≠ 0 then repeats0 + 1 else repeats0
-    let evs := src.take bm.loopPosition ++ src.drop (bm.loopPosition + bm.loopLength)
+    let evs := src.take bm.loopPosition ++ src.drop (bm.loopPosition + loopLength)
     let ins (l : List Event) (p : Nat) (e : Event) : List Event := l.take p ++ [e] ++ l.drop p
     let evs := ins evs (position + length) { type := ev_LOOP_END, param := wrap16 repeats, on := 0, off := 0 }
     let evs := if breakPoint ≠ 0 then ins evs (position + breakPoint) { type := ev_LOOP_BREAK, param := 0, on := 0, off := 0 } else evs
